@@ -57,7 +57,14 @@ def run(tier, seed, res, lean):
         res.violations.append(Violation('c08-columns-after-failure', b['msg'][:300], {'suite': 'S-COL', **b}))
     for b in c08_bad[:4]:
         res.violations.append(Violation('c08-memo', b['failures'][0]['msg'][:300], {'suite': 'S-CACHE', **b}))
-    found = lru_over or shard_oracle or col_problems or c08_bad or shared_bad or fault_bad
+    # the id mappings of Join / GroupBy / Split are computed once per pipeline object: reading ids again, and a call of a field for one
+    # entry, do not compute them again (S-REL, memo part)
+    from .. import suite_rel
+    rel_outs = pmap(suite_rel.run_shard, [(seed * 5003 + i + 9, 24 if tier == 'quick' else 150, ['join', 'join', 'groupby', 'split']) for i in range(16)])
+    memo_bad = [b for o in rel_outs for b in o[5]]
+    for b in memo_bad[:3]:
+        res.violations.append(Violation('c08-mapping-recomputed', b['problems'][0][:300], {'suite': 'S-REL', **b}))
+    found = memo_bad or lru_over or shard_oracle or col_problems or c08_bad or shared_bad or fault_bad
     corr = (lru_bad[:1] and ('S-LRU', lru_bad[0])) or (shard_bad[:1] and ('S-COL', shard_bad[0])) or \
         (model_bad[:1] and ('S-CACHE', model_bad[0]))
     if corr and not found:
